@@ -219,6 +219,47 @@ func drawC03(t *rapid.T) C03Case {
 			c.Token = sc.Token
 		}
 	}
+	// a later block computes with a value it shares with an authority-level fact (a set): whatever
+	// it does with it, the fact itself must stay what it was for later blocks and for queries
+	var sharedQuery *m.Rule
+	if rapid.IntRange(0, 4).Draw(t, "shared-set") == 4 {
+		n := rapid.IntRange(3, 5).Draw(t, "set-n")
+		var elems, keep []m.Term
+		for i := 0; i < n; i++ {
+			e := m.Int(int64(i + 1))
+			if rapid.Bool().Draw(t, "set-str") {
+				e = m.Int(int64(10 * (i + 1)))
+			}
+			elems = append(elems, e)
+			if i > 0 && (i == n-1 || rapid.Bool().Draw(t, "set-keep")) {
+				keep = append(keep, e)
+			}
+		}
+		set := m.Term{K: m.KSet, Set: m.CanonSet(elems)}
+		other := m.Term{K: m.KSet, Set: m.CanonSet(keep)}
+		fact := m.P("tags", set)
+		if rapid.Bool().Draw(t, "set-in-authz") {
+			sc.Authz.Facts = append(sc.Authz.Facts, fact)
+		} else {
+			sc.Token.Blocks[0].Facts = append(sc.Token.Blocks[0].Facts, fact)
+		}
+		s := m.Var("s")
+		op := rapid.SampledFrom([]string{"intersection", "union", "contains"}).Draw(t, "set-op")
+		var e *m.Expr
+		if op == "contains" {
+			e = m.Bin("contains", m.V(s), m.V(other))
+		} else {
+			e = m.Bin("==", m.Un("length", m.Bin(op, m.V(s), m.V(other))), m.V(m.Int(int64(len(other.Set)))))
+		}
+		k := 1 + rapid.IntRange(0, len(sc.Token.Blocks)-2).Draw(t, "set-block")
+		if rapid.Bool().Draw(t, "set-as-rule") {
+			sc.Token.Blocks[k].Rules = append(sc.Token.Blocks[k].Rules, m.Rule{Head: m.P("narrowed", s), Body: []m.Pred{m.P("tags", s)}, Exprs: []*m.Expr{e}})
+		} else {
+			sc.Token.Blocks[k].Checks = append(sc.Token.Blocks[k].Checks, m.Check{Queries: []m.Rule{{Head: gen.QueryHead, Body: []m.Pred{m.P("tags", s)}, Exprs: []*m.Expr{e}}}})
+		}
+		c.Token, c.Authz = sc.Token, sc.Authz
+		sharedQuery = &m.Rule{Head: m.P("panel", s), Body: []m.Pred{m.P("tags", s)}}
+	}
 	c.F = sc.Schema.DrawAdversarialBlock(t, sc.Token, sc.Authz, true)
 	c.F.Checks = nil
 	c.Pos = rapid.IntRange(0, 3).Draw(t, "pos")
@@ -233,6 +274,9 @@ func drawC03(t *rapid.T) C03Case {
 	nq := rapid.IntRange(3, 5).Draw(t, "nq")
 	for i := 0; i < nq; i++ {
 		c.Queries = append(c.Queries, sc.Schema.DrawPanelQuery(t, pool))
+	}
+	if sharedQuery != nil {
+		c.Queries = append(c.Queries, *sharedQuery)
 	}
 	return c
 }
